@@ -26,12 +26,15 @@ _CACHE = {}
 
 
 def _scratch(repo, tag):
-    # fixed path per driver: cargo's fingerprints are path-dependent, a stable path keeps the rebuild incremental
+    """Scratch copy of the working tree for a native driver.  The directory is KEPT between runs (fixed path per
+    driver, so cargo's path-dependent fingerprints stay valid) and synchronised by CONTENT: rsync --checksum
+    without -t rewrites exactly the files whose bytes differ and gives them the current mtime.  Never copy with
+    preserved mtimes here: cargo decides freshness by mtime, and a file that is put back with an OLDER mtime
+    (a reverted change) would be taken as unchanged and the previous - possibly mutated - build would be run."""
     d = os.path.join(WORKROOT, 'native-' + tag)
-    if os.path.exists(d):
-        shutil.rmtree(d)
-    os.makedirs(d)
-    subprocess.run(['rsync', '-a', '--exclude', '/target', '--exclude', '/.git', repo.rstrip('/') + '/', d + '/'], check=True)
+    os.makedirs(d, exist_ok=True)
+    subprocess.run(['rsync', '-rlpgoD', '--checksum', '--delete', '--exclude', '/target', '--exclude', '/.git',
+                    repo.rstrip('/') + '/', d + '/'], check=True)
     return d
 
 
@@ -65,7 +68,7 @@ def _run_driver(repo, which, case=None, budget=50, timeout=1500, extra_env=None)
     except subprocess.TimeoutExpired:
         return None, 'native driver timed out'
     finally:
-        shutil.rmtree(d, ignore_errors=True)
+        pass  # the scratch copy is kept: see _scratch
 
 
 def run_obligation(repo, spec, tier):
